@@ -125,6 +125,7 @@ struct Ctx {
     // (memcpy, length scan) are either ordered by happens-before (then their position between the index
     // operations cannot be observed) or reported by the race detector; both are still *checked*.
     bool reduced = false;
+    bool rbuf_fresh = false;        // the reader's scratch buffer has been filled by the read operation in progress
 
     Ctx() {}
     ~Ctx() { delete tl; }
@@ -214,6 +215,7 @@ void *hook_memcpy(void *dst, const void *src, size_t n)
         if(s >= c->v.write_buffer && s < c->v.write_buffer + c->v.max_msg && f != 0) c->fail("scratch-buffer-shared|write_buffer", "read by the reader thread");
         if(d >= c->v.read_buffer && d < c->v.read_buffer + c->v.max_msg) {
             if(f != 1) c->fail("scratch-buffer-shared|read_buffer", "written by the writer thread");
+            c->rbuf_fresh = true;
             if((size_t)(d - c->v.read_buffer) + n > c->v.max_msg) { c->fail("read-buffer-overflow|ring_read-memcpy", std::to_string(n) + " bytes into the " + std::to_string(c->v.max_msg) + "-byte read buffer"); return dst; }
         }
     }
@@ -477,7 +479,7 @@ struct SysB {
                     bool hn = la ? c.tl->hasNextLookahead() : c.tl->hasNext();
                     if(!c.mon.respond_r(hn)) { c.fail(std::string("not-linearizable|") + ROPN[la ? R_HASNEXT_LA : R_HASNEXT], std::string("returned ") + (hn ? "true" : "false")); continue; }
                     if(!hn) continue;
-                    c.obs[1].clear(); c.points[1] = 0; self->rphase = 1;
+                    c.obs[1].clear(); c.points[1] = 0; self->rphase = 1; c.rbuf_fresh = false;
                     c.mon.invoke_r(la ? R_READ_LA : R_READ);
                     const char *m = la ? c.tl->read_lookahead() : c.tl->read();
                     size_t len = rtosc_message_length(m, g_bring.maxmsg);
@@ -539,7 +541,13 @@ struct SysB {
         // happens-before state, relative (only comparisons matter): which release the reader/writer has already seen
         s += " hb:" + std::to_string(c.vc[1][0] >= c.rel[0][0] ? 1 : 0) + std::to_string(c.vc[0][1] >= c.rel[1][1] ? 1 : 0);
         s += " mon:" + c.mon.canon(I.wtag);
-        // the scratch buffers' content is write-before-read within one operation and not part of the state
+        // the writer's scratch buffer is determined by (operation, tag); the reader's holds the message that the
+        // pending read will return, so it is part of the state while a read is in progress
+        if(!I.ridle && I.rphase == 1 && c.rbuf_fresh) {
+            std::string rb(c.v.read_buffer, c.v.max_msg); std::string shown = "raw:" + vp::hex(rb.data(), rb.size());
+            for(size_t id = 0; id < c.mon.table.size(); ++id) { const std::string &m = c.mon.table[id]; if(m.size() <= rb.size() && rb.compare(0, m.size(), m) == 0) { shown = std::string(1, (char)('A' + (id / 4) * 4 + (((id % 4) - I.wtag) & 3))); break; } }
+            s += " rbuf:" + shown;
+        }
         return s;
     }
 };
@@ -553,6 +561,14 @@ int main(int argc, char **argv)
     std::string mode;
     for(int i = 1; i + 1 < argc; ++i) if(!strcmp(argv[i], "--part")) mode = argv[i + 1];
 
+    // ---- debugging aid: --debug-hist "<maxmsg>x<n>:<op>,<op>,..." prints the canon and the monitor after every step
+    for(int i = 1; i + 1 < argc; ++i) if(!strcmp(argv[i], "--debug-hist")) {
+        unsigned mm, nn; int off = 0; sscanf(argv[i + 1], "%ux%u:%n", &mm, &nn, &off);
+        g_bring = {mm, nn};
+        SysB::Inst I; const char *p = argv[i + 1] + off;
+        while(*p) { int op = atoi(p); SysB::apply(I, op, true); printf("%-45s %s\n    abs-monitor: %s wtag=%d\n", BOPN[op], SysB::canon(I).c_str(), I.c->mon.canon(0).c_str(), I.wtag); while(*p && *p != ',') ++p; if(*p) ++p; }
+        return 0;
+    }
     // ---- replay of a Part A case: A|16x2|off8|pre1|w03|r01|sched=0101..
     if(vp::replaying() && vp::ctx().replay.compare(0, 2, "A|") == 0) {
         Instance in; unsigned mm, nn, off, pre; char w[32] = "", r[32] = "", sc[6000] = "";
@@ -596,24 +612,31 @@ int main(int argc, char **argv)
     if(mode == "B") return vp::finish();
 
     // ---- Part A ---------------------------------------------------------------------------------------
+    // VP_C06_EXT=1 (second pass of the thorough tier): longer programs and more rings
+    bool ext_flag = false; for(int i = 1; i < argc; ++i) if(!strcmp(argv[i], "--ext")) ext_flag = true;
+    if(ext_flag && !T) return vp::finish();       // the extended pass exists in the thorough tier only
+    const bool EXT = ext_flag;
     std::vector<BRing> rings = {{16, 2}, {16, 3}};
-    if(T) { rings.push_back({24, 2}); rings.push_back({32, 2}); }
-    const int maxw = T ? 3 : 2, maxr = T ? 3 : 2, maxbound = T ? 3 : 2;
+    if(EXT) { rings.push_back({24, 2}); rings.push_back({32, 2}); }
+    const int maxw = EXT ? 3 : 2, maxr = EXT ? 3 : 2, maxbound = EXT ? 2 : (T ? 3 : 2);
     std::vector<std::vector<int>> wprogs, rprogs;
     for(int len = 1; len <= maxw; ++len) { std::vector<int> p(len, 0); while(true) { wprogs.push_back(p); int k = len - 1; while(k >= 0 && ++p[k] == W_KINDS) p[k--] = 0; if(k < 0) break; } }
     for(int len = 1; len <= maxr; ++len) { std::vector<int> p(len, 0); while(true) { rprogs.push_back(p); int k = len - 1; while(k >= 0 && ++p[k] == 2) p[k--] = 0; if(k < 0) break; } }
     std::vector<Instance> insts;
     for(auto &rg : rings) for(size_t off = 0; off < rg.maxmsg * rg.nmsgs; off += 4) for(int pre = 0; pre <= 2; ++pre) {
         // quick: every start offset for the smallest ring, offsets near the wrap-around for the others
-        if(!T && rg.nmsgs == 3 && !(off == 0 || off >= rg.maxmsg * rg.nmsgs - 16)) continue;
-        if(T && rg.maxmsg * rg.nmsgs > 48 && !(off == 0 || off >= rg.maxmsg * rg.nmsgs - 24)) continue;
+        // every start offset for the smallest ring, offsets at and near the wrap-around for the others
+        if(!EXT && rg.nmsgs == 3 && !(off == 0 || off >= rg.maxmsg * rg.nmsgs - 16)) continue;
+        if(EXT && !(off == 0 || off >= rg.maxmsg * rg.nmsgs - 16)) continue;
+        if(EXT && pre == 1) continue;
         if(pre * 12 > (int)(rg.maxmsg * rg.nmsgs) - 1) continue;
         for(auto &wp : wprogs) for(auto &rp : rprogs) { Instance in; in.maxmsg = rg.maxmsg; in.nmsgs = rg.nmsgs; in.offset = off; in.prefill = pre; in.wprog = wp; in.rprog = rp; insts.push_back(in); }
     }
-    vp::bound("partA_instances", (long long)insts.size());
-    vp::bound("partA_programs", "writer: 1.." + std::to_string(maxw) + " ops over {write12, write20, writeMaxMsg, write>MaxMsg, writeArray12, raw_write12, raw_write>MaxMsg}; reader: 1.." + std::to_string(maxr) + " rounds over {if(hasNext)read, if(hasNextLookahead)read_lookahead}");
-    vp::bound("partA_rings", T ? "16x2 16x3 24x2 32x2" : "16x2 16x3");
-    vp::bound("partA_start_states", "ring pre-rotated to start offsets (multiples of 4) and pre-filled with 0..2 messages");
+    const std::string PA = EXT ? "partA_ext_" : "partA_";
+    vp::bound(PA + "instances", (long long)insts.size());
+    vp::bound(PA + "programs", "writer: 1.." + std::to_string(maxw) + " ops over {write12, write20, writeMaxMsg, write>MaxMsg, writeArray12, raw_write12, raw_write>MaxMsg}; reader: 1.." + std::to_string(maxr) + " rounds over {if(hasNext)read, if(hasNextLookahead)read_lookahead}");
+    vp::bound(PA + "rings", EXT ? "16x2 16x3 24x2 32x2" : "16x2 16x3");
+    vp::bound(PA + "start_states", "ring pre-rotated to start offsets (multiples of 4) and pre-filled with 0..2 messages");
     int completed_bound = -1;
     std::vector<uint64_t> per_k(8, 0);
     for(int b = 0; b <= maxbound; ++b) {
@@ -624,10 +647,10 @@ int main(int argc, char **argv)
             explore(insts[ii], {}, b, b, per_k);
             if(b == 0) { vp::state(); vp::nontrivial(vp::fnv(insts[ii].id())); if(ii % 1013 == 0) vp::sample(insts[ii].id()); }
         }
-        if(stopped) { vp::cap("deadline: preemption bound " + std::to_string(completed_bound) + " completed for all instances, bound " + std::to_string(b) + " partial"); break; }
+        if(stopped) { vp::cap(PA + "deadline: preemption bound " + std::to_string(completed_bound) + " completed for all instances, bound " + std::to_string(b) + " partial"); break; }
         completed_bound = b;
     }
-    vp::bound("partA_preemption_bound_completed", completed_bound);
+    vp::bound(PA + "preemption_bound_completed", completed_bound);
     for(size_t k = 0; k < per_k.size(); ++k) if(per_k[k]) vp::outcome("schedules with " + std::to_string(k) + " preemptions", per_k[k]);
     vp::outcome("sync points executed", g_ctx.sync_points);
     return vp::finish();
